@@ -63,7 +63,7 @@ Proof.
   intros ds Hne.
   destruct (run_stream0 discard_step h s0 discard_inv d discard_step_ok) with (ds := ds)
     as (st & o & E & (_ & Hv & Hc)); [|exact Hne|].
-  - split; [rewrite zlen_nil; lia|]. split; [now rewrite skipn_nil|apply contiguous_nil].
+  - split; [unfold zlen; cbn [length]; lia|]. split; [now rewrite skipn_nil|apply contiguous_nil].
   - exists st, o. auto.
 Qed.
 End Discard.
@@ -178,14 +178,15 @@ Proof.
   assert (Ean : an (mk h (s0 + zlen pre) c) = Some (An (s0 + zlen pre) f ch md))
     by (unfold mk; rewrite Eh; reflexivity).
   rewrite Ean. cbn [a_s0 a_fsd a_ch a_md]. rewrite Hist.
-  rewrite concat2_mk by (rewrite zlen_cons, zlen_nil; lia).
+  rewrite concat2_mk by (unfold zlen; cbn [length]; lia).
   cbn [app]. rewrite dat_mk.
-  rewrite getitem_tail by lia. rewrite getitem_neg_tail by (rewrite zlen_cons; pose proof (zlen_nonneg c); lia).
+  rewrite (getitem_tail h _ _ 1) by lia.
+  rewrite (getitem_neg_tail h _ _ 1) by (rewrite zlen_cons; pose proof (zlen_nonneg c); lia).
   eexists _, _. split; [reflexivity|].
   split; [left|split].
   - rewrite zlen_cons. replace (1 + zlen c - 1) with (zlen c) by lia.
     rewrite zlen_to_nat, skipn_last, last_app2.
-    apply mk_eq; [rewrite zlen_app; lia|reflexivity].
+    f_equal. apply mk_eq; [rewrite zlen_app; lia|reflexivity].
   - rewrite map_app, concat_app. cbn [map concat dat]. rewrite app_nil_r, Hv.
     unfold derived. now rewrite diff_from_app.
   - apply contiguous_app; [exact Hc|]. rewrite Hv. unfold derived. rewrite diff_from_length.
